@@ -996,6 +996,13 @@ func (x *runner) preIssuerCase(root, pi *authority, rootSKI, piSKI bool) {
 	}
 	_ = atEnd
 	x.preRoutes(bp, bf, root, pi, cls, true)
+	if k := findExt(bp.exts, oidAKI); k >= 0 {
+		// a precertificate with two authority key ids: only the first one is replaced / deleted
+		dup := bp.insertExt(r.Intn(len(bp.exts)+1), mkExt(oidAKI, r.Bool(), r.Bytes(1+r.Intn(8))))
+		pre := dup.insertExt(r.Intn(len(dup.exts)+1), mkExt(oidPoison, true, []byte{5, 0})).assemble()
+		x.opBuild(pre, pi.parsed, x.opCanon(pre))
+		x.out.Count("class:preissuer-two-akis")
+	}
 }
 
 func (x *runner) preRoutes(bp, bf parts, root, pi *authority, cls string, expectEqual bool) {
